@@ -26,12 +26,12 @@ def hierPoint (c : HCls) (k : Nat) : Bool :=
   | _, _ => false
 
 /-- the grid points on which the code that exists deviates from the documentation:
-      12, 18      the chunk does not say where it sits on a parent: AttributeError (F-C19t)
-      16, 19      a valid chunk-on-chromosome hierarchy is refused with MismatchedParentException (F-C19u)
-      7-10, 17    an AnnotationCollection without children and bounds never looks at its parent (F-C19w) -/
+      (12, 18     the chunk does not say where it sits on a parent: F-C19t, repaired by 43c4851 - no longer here)
+      (16, 19     a valid chunk-on-chromosome hierarchy is refused with MismatchedParentException: a documented class,
+                  outside C19 - recorded as an observation in DESIGN 11.5)
+      7-10, 12, 17, 18   an AnnotationCollection without children and bounds never looks at its parent (F-C19w) -/
 def hierDeviation (c : HCls) (k : Nat) : Bool :=
-  k == 12 || k == 18 || k == 16 || k == 19 ||
-  (c == .emptyAnnot && (k == 7 || k == 8 || k == 9 || k == 10 || k == 17))
+  (c == .emptyAnnot && (k == 7 || k == 8 || k == 9 || k == 10 || k == 12 || k == 17 || k == 18))
 
 def allHCls : List HCls := [.located, .emptyAnnot]
 
@@ -100,12 +100,12 @@ theorem liftover_chunk_without_sequence (chain : List HLevel) (c : HLevel) (abov
   | nil => simp at hd
   | cons x xs => simp only [hk, hc, hd, hs, if_true, Bool.not_true, Bool.false_eq_true, if_false, Bool.not_false]; rfl
 
-/-- ANY hierarchy: the parent validation ends in acceptance, in one of three documented classes, or in the one
-    internal error of F-C19t -/
+/-- ANY hierarchy: the parent validation ends in acceptance or in one of four documented classes (the AttributeError
+    of F-C19t is repaired by 43c4851: ValidationException) -/
 theorem liftover_outcomes (chain : List HLevel) :
     liftoverParents chain = .ok () ∨ liftoverParents chain = .error (.doc .NoSuchAncestor) ∨
     liftoverParents chain = .error (.doc .NullSequence) ∨ liftoverParents chain = .error (.doc .MismatchedParent) ∨
-    liftoverParents chain = .error (.internal "AttributeError") := by
+    liftoverParents chain = .error (.doc .Validation) := by
   unfold liftoverParents
   cases chain with
   | nil => exact Or.inl rfl
@@ -128,30 +128,33 @@ theorem liftover_outcomes (chain : List HLevel) :
                   · exact Or.inl rfl
       · exact Or.inl rfl
 
-/-- the internal error needs a chunk WITH sequence under a chromosome whose place on the level above is not recorded:
-    whenever the level above the chunk carries a location, the validation ends in acceptance or a documented class -/
-theorem liftover_noInternal_of_located (chain : List HLevel) (c a : HLevel) (above : List HLevel)
-    (hd : chain.dropWhile (fun l => l.ty != .chunk) = c :: a :: above) (hl : a.loc ≠ .none) :
-    ∀ cls, liftoverParents chain ≠ .error (.internal cls) := by
-  intro cls
+/-- ANY hierarchy: the parent validation never ends in an internal error -/
+theorem liftover_noInternal (chain : List HLevel) : ∀ cls, liftoverParents chain ≠ .error (.internal cls) := by
+  intro cls h
+  rcases liftover_outcomes chain with h' | h' | h' | h' | h' <;> rw [h'] at h <;> cases h
+
+/-- a chunk WITH sequence under a chromosome that does not say where it sits on the level above (no level above, or a
+    level without location) is refused with ValidationException -/
+theorem liftover_unlocated_refused (chain : List HLevel) (c : HLevel) (above : List HLevel)
+    (hc : hasAncestor .chromosome chain = true)
+    (hd : chain.dropWhile (fun l => l.ty != .chunk) = c :: above) (hs : c.hasSeq = true)
+    (hl : ∀ a rest, above = a :: rest → a.loc = .none) :
+    liftoverParents chain = .error (.doc .Validation) := by
+  have hk : hasAncestor .chunk chain = true := by
+    unfold hasAncestor
+    rw [List.any_eq_true]
+    have hmem : c ∈ chain := List.dropWhile_subset _ (by rw [hd]; simp)
+    have hty : (c.ty != .chunk) = false := by
+      have := List.head_dropWhile_not (fun l : HLevel => l.ty != .chunk) (l := chain) (by rw [hd]; simp)
+      simpa [hd] using this
+    exact ⟨c, hmem, by simpa using hty⟩
   unfold liftoverParents
   cases chain with
   | nil => simp at hd
   | cons x xs =>
-      simp only [hd]
-      split
-      · split
-        · intro h; cases h
-        · split
-          · intro h; cases h
-          · cases hloc : a.loc with
-            | none => exact absurd hloc hl
-            | bare => intro h; cases h
-            | ptr p =>
-                simp only
-                split
-                · intro h; cases h
-                · intro h; cases h
-      · intro h; cases h
+      simp only [hk, hc, hd, hs, if_true, Bool.not_true, Bool.false_eq_true, if_false]
+      cases above with
+      | nil => rfl
+      | cons a rest => simp only [hl a rest rfl]; rfl
 
 end BioCantor.Proofs.Val
